@@ -40,10 +40,14 @@ def counting_builtins(counter):
     saved_lookup = dict(p.GATHER_LOOKUP)
     saved_unpack = b.unpack
 
+    import threading
+    lock = threading.Lock()
+
     def wrap(f):
         @functools.wraps(f)
         def g(*a, **k):
-            counter[f.__name__] += 1
+            with lock:
+                counter[f.__name__] += 1
             return f(*a, **k)
         return g
 
